@@ -474,6 +474,9 @@ func c09(r *core.Run) {
 			if strings.Contains(valDesc(sa), "access.") || subjectHasPrefix(sa, "access.") {
 				which = "access-loop"
 			}
+			if builtWithType(sa, sf.accessPfx) {
+				which = "access-loop"
+			}
 		}
 		r.Check(chok && chF == inCh && edgeOK && qArgOK, "S3", core.FuncName(sub), fmt.Sprintf("%s:%s#%d:in-channel+queue-variant", which, c.Common().Method.Name(), i), p.InstrPos(c),
 			"passes the in-channel; queue variant exactly when a queue group is set", fmt.Sprintf("subscription shape broken: inChannel=%v queueEdge=%v queueArg=%v", chok && chF == inCh, edgeOK, qArgOK))
@@ -503,6 +506,7 @@ func c09(r *core.Run) {
 		}
 		r.Check(errRet, "S4", core.FuncName(sub), fmt.Sprintf("%s:%s#%d:error-returned", which, c.Common().Method.Name(), i), p.InstrPos(c), "a failed subscription aborts subscribe with its error", "a subscription error is dropped")
 	}
+	c09ErrorsTested(r, "S4", sub)
 	for _, sc := range callsTo(root, sub) {
 		serve := sc.Parent()
 		tested := false
@@ -965,6 +969,9 @@ func contentDependent(v ssa.Value, depth int) bool {
 		b, ok := t.Underlying().(*types.Basic)
 		return ok && (b.Kind() == types.String || b.Kind() == types.Uint8 || b.Kind() == types.UntypedString)
 	}
+	if types.TypeString(v.Type(), nil) == "error" {
+		return false // an error result says nothing about the patterns' text
+	}
 	switch x := v.(type) {
 	case *ssa.Const:
 		return false
@@ -1023,6 +1030,10 @@ func coveringRule(r *core.Run, rule string) {
 		}
 	}
 	n := 0
+	accPfx := ""
+	if sf, _ := extractSubFacts(p); sf != nil {
+		accPfx = sf.accessPfx
+	}
 	for _, f2 := range p.Helpers(sub) {
 		for _, c := range core.Calls(f2) {
 			if !c.Common().IsInvoke() || c.Common().Method.Name() != "ChanSubscribe" {
@@ -1038,7 +1049,7 @@ func coveringRule(r *core.Run, rule string) {
 						}
 					}
 				}
-				if strings.Contains(valDesc(subj), "access.") || subjectHasPrefix(subj, "access.") {
+				if strings.Contains(valDesc(subj), "access.") || subjectHasPrefix(subj, "access.") || builtWithType(subj, accPfx) {
 					continue // the access loop is C09's (known finding there)
 				}
 				n++
@@ -1055,5 +1066,166 @@ func coveringRule(r *core.Run, rule string) {
 	}
 	if n == 0 {
 		r.Bad(rule, core.FuncName(sub), "has-resource-subscriptions", p.Pos(sub.Pos()), "no get/call/auth subscription site found (rule went vacuous)")
+	}
+}
+
+// builtWithType: the subject is the result of a subject-building helper that
+// is handed the constant request type typ (requestSubject("access", name)).
+func builtWithType(subj ssa.Value, typ string) bool {
+	hc, ok := core.Strip(subj).(*ssa.Call)
+	if !ok || typ == "" {
+		return false
+	}
+	for _, a := range hc.Common().Args {
+		if sv, ok := core.ConstString(a); ok && sv == typ {
+			return true
+		}
+	}
+	return false
+}
+
+// c09ErrorsTested (typestate, per function of subscribe's unit): after a
+// subscription - a ChanSubscribe / ChanQueueSubscribe invoke, or the call of a
+// private helper that makes one - its error is tested (non-nil edge leaves
+// with an error) or returned before the next subscription is made and before
+// the function returns: an error that is only overwritten by the next
+// iteration's is lost, the service then announces and serves patterns it has no
+// subscription for.
+func c09ErrorsTested(r *core.Run, rule string, sub *ssa.Function) {
+	p := r.P
+	isInv := func(c ssa.CallInstruction) bool {
+		return c.Common().IsInvoke() && (c.Common().Method.Name() == "ChanSubscribe" || c.Common().Method.Name() == "ChanQueueSubscribe")
+	}
+	unit := p.Helpers(sub)
+	subscribes := map[*ssa.Function]bool{}
+	for changed := true; changed; {
+		changed = false
+		for _, f := range unit {
+			if subscribes[f] {
+				continue
+			}
+			for _, c := range core.Calls(f) {
+				cal := c.Common().StaticCallee()
+				if isInv(c) || (cal != nil && subscribes[cal]) {
+					subscribes[f] = true
+					changed = true
+				}
+			}
+		}
+	}
+	const (
+		clean = iota
+		pending
+		failing
+	)
+	for _, f := range unit {
+		if !subscribes[f] {
+			continue
+		}
+		sites := map[ssa.Instruction]bool{}
+		derived := map[ssa.Value]bool{}
+		for _, c := range core.Calls(f) {
+			cal := c.Common().StaticCallee()
+			if !(isInv(c) || (cal != nil && subscribes[cal])) || c.Value() == nil {
+				continue
+			}
+			sites[c] = true
+			if _, isTuple := c.Value().Type().(*types.Tuple); isTuple {
+				if c.Value().Referrers() != nil {
+					for _, rf := range *c.Value().Referrers() {
+						if ex, ok := rf.(*ssa.Extract); ok && types.TypeString(ex.Type(), nil) == "error" {
+							derived[ex] = true
+						}
+					}
+				}
+			} else if types.TypeString(c.Value().Type(), nil) == "error" {
+				derived[c.Value()] = true
+			}
+		}
+		cells := map[ssa.Value]bool{}
+		for changed := true; changed; {
+			changed = false
+			for _, b := range f.Blocks {
+				for _, in := range b.Instrs {
+					switch x := in.(type) {
+					case *ssa.Phi:
+						if !derived[x] {
+							for _, e := range x.Edges {
+								if derived[e] {
+									derived[x] = true
+									changed = true
+								}
+							}
+						}
+					case *ssa.Store:
+						if derived[x.Val] && !cells[x.Addr] {
+							cells[x.Addr] = true
+							changed = true
+						}
+					case *ssa.UnOp:
+						if x.Op == token.MUL && cells[x.X] && !derived[x] {
+							derived[x] = true
+							changed = true
+						}
+					}
+				}
+			}
+		}
+		overwritten := map[ssa.Instruction]bool{}
+		fl := &core.Flow{Fn: f, Entry: core.StateSet(0).Add(clean)}
+		fl.Transfer = func(in ssa.Instruction, st int) core.StateSet {
+			if sites[in] {
+				if st == pending {
+					overwritten[in] = true
+				}
+				return core.StateSet(0).Add(pending)
+			}
+			return core.StateSet(0).Add(st)
+		}
+		fl.Branch = func(iff *ssa.If, succ int, st int) (int, bool) {
+			if st != pending {
+				return st, true
+			}
+			cnd, sc := iff.Cond, succ
+			for {
+				u, ok := cnd.(*ssa.UnOp)
+				if !ok || u.Op != token.NOT {
+					break
+				}
+				cnd, sc = u.X, 1-sc
+			}
+			bo, ok := cnd.(*ssa.BinOp)
+			if !ok || (bo.Op != token.NEQ && bo.Op != token.EQL) {
+				return st, true
+			}
+			x, y := bo.X, bo.Y
+			if c, isC := x.(*ssa.Const); isC && c.IsNil() {
+				x, y = y, x
+			}
+			if c, isC := y.(*ssa.Const); !isC || !c.IsNil() || !derived[x] {
+				return st, true
+			}
+			nonNil := (bo.Op == token.NEQ) == (sc == 0)
+			if nonNil {
+				return failing, true
+			}
+			return clean, true
+		}
+		res := fl.Run()
+		for _, c := range core.Calls(f) {
+			in := ssa.Instruction(c)
+			if !sites[in] {
+				continue
+			}
+			r.Check(!overwritten[in], rule, core.FuncName(f), "error-tested-before-next-subscription:"+core.CalleeName(c), p.InstrPos(in), "no subscription is made while the error of an earlier one is still untested", "this subscription can be made while the error of an earlier subscription has not been tested: that error is overwritten and lost (a failed subscription of one pattern goes unnoticed when a later one succeeds), and the service announces patterns it is not subscribed to")
+		}
+		for _, ret := range core.Returns(f) {
+			st := res.Before[ret]
+			if !st.Has(pending) {
+				continue
+			}
+			ok := len(ret.Results) > 0 && derived[ret.Results[len(ret.Results)-1]]
+			r.Check(ok, rule, core.FuncName(f), "pending-error-returned", p.InstrPos(ret), "the last subscription's error is what the function returns", "the function can return without having tested or returned the error of its last subscription")
+		}
 	}
 }
